@@ -75,11 +75,11 @@ def trace_filter(code):
     return code.co_filename.endswith('lib/job_control.py')
 
 
-def execute(hname, chooser, line_points=True):
+def execute(hname, chooser, line_points=True, opcode_points=False):
     """One execution of a harness under the chooser; returns observation dict."""
     scripts = HARNESSES[hname]
-    sched = vthreads.Scheduler(chooser, horizon=500.0, max_steps=6000, trace_filter=trace_filter,
-                               line_points=line_points)
+    sched = vthreads.Scheduler(chooser, horizon=500.0, max_steps=20000, trace_filter=trace_filter,
+                               line_points=line_points, opcode_points=opcode_points)
     names = ['client%d' % i for i in range(len(scripts))] + ['jobthread%d' % i for i in range(8)]
     # job threads are created in start order; client threads first
     shim = vthreads.ShimThreadingModule(sched, names)
@@ -277,12 +277,13 @@ def judge(hname, obs):
 
 
 def _explore_harness(args):
-    hname, bound, line_points, shard = args
+    hname, bound, line_points, shard = args[:4]
+    opcode_points = len(args) > 4 and args[4]
     world.World(world.POP_EMPTY)
     st = dict(execs=0, points=0, outcomes=set(), viol={}, maxpoints=0)
 
     def run(ch):
-        return execute(hname, ch, line_points)
+        return execute(hname, ch, line_points, opcode_points)
     determinism_every = 97
     for ch, obs in choice.explore(run, bound=bound, shard=shard):
         st['execs'] += 1
@@ -292,7 +293,7 @@ def _explore_harness(args):
         st['outcomes'].add(order)
         bad = judge(hname, obs)
         if bad is None and st['execs'] % determinism_every == 0:
-            obs2 = execute(hname, choice.Chooser(ch.choices), line_points)
+            obs2 = execute(hname, choice.Chooser(ch.choices), line_points, opcode_points)
             if obs2['events'] != obs['events']:
                 bad = ('harness-nondeterministic-replay', 'same choices, different events')
         if bad is not None:
@@ -313,16 +314,21 @@ def run(tier, seed):
     else:
         plan = [(h, 2, 6 if h in big else 2) for h in HARNESSES] + \
                [(h, 3, 16) for h in ('add|insert', 'add|add', 'raise|add', 'add3', 'add2|insert', 'add|add,insert')]
-    tasks = [(h, b, True, (r, n)) for h, b, n in plan for r in range(n)]
+    tasks = [(h, b, True, (r, n), False) for h, b, n in plan for r in range(n)]
+    # visible-bytecode granularity (switches between the attribute reads of one line)
+    if tier == 'quick':
+        tasks += [(h, 1, True, (0, 1), True) for h in QUICK]
+    else:
+        tasks += [(h, 2, True, (r, 8), True) for h in HARNESSES for r in range(8)]
     results = par.run_tasks(_explore_harness, tasks)
     tot_exec = tot_pts = 0
     outcomes = 0
     per = {}
     viol = {}
-    for (hname, bound, lp, shard), (_, st) in zip(tasks, results):
+    for (hname, bound, lp, shard, opc), (_, st) in zip(tasks, results):
         tot_exec += st['execs']
         tot_pts += st['points']
-        key = '%s/bound%d' % (hname, bound)
+        key = '%s/bound%d%s' % (hname, bound, '/bytecode-points' if opc else '')
         cur = per.setdefault(key, dict(schedules=0, distinct_start_end_orders_max_per_shard=0,
                                        choice_points_in_longest_schedule=0))
         cur['schedules'] += st['execs']
